@@ -23,8 +23,11 @@ def canon(after):
 def rand_opts(rng, a):
     if rng.random() < 0.25:
         a["chown"] = [rng.choice([0, 1000, 4242]), rng.choice([0, 1000, 4242])]
-    if rng.random() < 0.2:
+    r = rng.random()
+    if r < 0.2:
         a["mode"] = rng.choice([0o644, 0o755, 0o600, 0o4755, 0o2750, 0o1777])
+    elif r < 0.4:
+        a["modestr"] = rng.choice(["a+X", "u=rwX,go=rX", "go-w", "u+s", "+t", "=r", "a=rwx", "g+s,o-rwx", "u-x,g+X", "o=", "ug+rw", "a-x+X", "+X", "go=rX", "u=rw,g=r,o="])
     if rng.random() < 0.2:
         a["utime"] = rng.choice([1111111111_000000000, 1500000000_123456789])
     return a
@@ -108,7 +111,7 @@ class CopySuite(Suite):
         r = (impl.get("runs") or [{}])[0]
         f = ["res=%s" % r.get("res"), "ref=%s" % model.get("res"), "cdc=%s" % bool(a.get("cdc")), "replace=%s" % bool(a.get("replace")),
              "follow=%s" % bool(a.get("follow")), "dst=%s" % ("empty" if not op["dst"] else "populated")]
-        for k in ("chown", "mode", "utime", "include", "exclude"):
+        for k in ("chown", "mode", "modestr", "utime", "include", "exclude"):
             if k in a:
                 f.append("opt." + k)
         return f
@@ -123,7 +126,7 @@ class CopySuite(Suite):
                 o = dict(op)
                 o[side] = t2
                 out.append(o)
-        for k in ("chown", "mode", "utime", "include", "exclude", "replace", "cdc", "follow"):
+        for k in ("chown", "mode", "modestr", "utime", "include", "exclude", "replace", "cdc", "follow", "wild"):
             if k in op["args"]:
                 o = dict(op)
                 o["args"] = {a: b for a, b in op["args"].items() if a != k}
@@ -212,6 +215,17 @@ class CopyOverlay(CopySuite):
                 a["cdc"] = True
             if rng.random() < 0.3:
                 a["replace"] = True
+            if rng.random() < 0.3 and tree:
+                # wildcard source: union of the matches, in order
+                e = rng.choice(tree)
+                cs = bytes.fromhex(e["p"]).split(b"/")
+                k = rng.randrange(len(cs))
+                esc = lambda c: b"".join(b"\\" + bytes([x]) if x in b"*?[]\\" else bytes([x]) for x in c)
+                pat = [esc(c) for c in cs[:k]] + [rng.choice([b"*", esc(cs[k][:1]) + b"*", b"?" * max(1, len(cs[k])), b"*" + esc(cs[k][-1:])])]
+                a["src"] = hx(b"/" + b"/".join(pat))
+                a["wild"] = True
+                # (a destination that is or becomes a directory: several matches onto one non-directory name is not a union)
+                a["dst"] = hx(rng.choice([b"/", b"/new/", b"/x/y/"]))
             ops.append(self.mk(tree, dst, a))
         return ops
 
